@@ -15,7 +15,7 @@ from vpbt.gen import streams as S
 ID = "C26"
 LEVEL = "exploration"
 RULE = (
-    "Byte strings from the C02 generator (byte-, bit-field-, field- and unit-level mutations of 32 valid streams from the "
+    "Byte strings from the C02 generator (byte-, bit-field-, field- and unit-level mutations of 34 valid streams from the "
     "current tree, valid streams, random bytes) written to a file and passed to vc2_bitstream_viewer.main() in-process, half with "
     "default options and half with a drawn sample of --offset/--from-offset/--to-offset (incl. negative), --show/--hide "
     "<pseudocode function>, --hide-slice, --show-internal-state, --ignore-parse-info-prefix, --no-status, -v, --num-trailing-bits. "
